@@ -38,6 +38,8 @@ class Src:
             k = d[0]
             if k == "arg":
                 out.append((name, "int", None if d[1] else "1"))
+            elif k == "hidden":  # private parameter with a default: present in the source, skipped by the parser
+                out.append((name, "int", "5"))
             elif k == "data":
                 out.append((name, self.dataclass(d[2]), None))
             elif k == "class":
